@@ -9,7 +9,7 @@ EXPLANATION = ('Value-flow normal forms of every built-in density compared with 
                'evaluated on), IsotropicGaussian sample / logp (quadratic part, normalising constant -(d/2) ln(2 pi sigma^2), symmetry under from<->to) / '
                'set_seed (overwrites the generator that sample consumes) / unnorm_logp. Tensor plumbing (reshape of literals, expand, squeeze) is '
                'quotiented out; f32-level accuracy and conditioning are not decided.')
-FLOORS = {'obligations': 23}   # counted on the reference tree; fewer instantiated obligations is reported, never passed silently
+FLOORS = {'obligations': 24}   # counted on the reference tree; fewer instantiated obligations is reported, never passed silently
 TECHNIQUE = 'value-flow normal form vs closed-form specification table; taint (dependence) rule; sibling agreement'
 D = 'distributions::'
 HALF = N(1) if False else T.div(T.ONE, N(2))
@@ -168,11 +168,15 @@ def gradient(ctx):
         return
     ev = ctx.evaluate(b, opts=GC)
     pos = S('position')
-    leaf = T.app('detach', pos)
+    leafs = [x for x in T.subterms(ev.ret_term) if T.is_app(x) and x[1].startswith('leaf#')]
+    leaf = leafs[0] if leafs and leafs[0] is T.app(leafs[0][1], T.app('detach', pos)) else T.app('leaf#?', T.app('detach', pos))
     ulp = T.app(D + 'GradientTarget::unnorm_logp', S('self'), leaf)
     ctx.eq('C15.grad', A, 'value', ev.ret_term, T.tup(ulp, T.app('from_inner', T.app('grad', ulp, leaf))),
            why='returns (logp(x), d logp / d x): the density is evaluated on a fresh leaf (detached copy of the position, gradient required) and the gradient is that of the very value returned, '
                'with respect to that leaf; no other graph cut on the path', sp=b['sp'])
+    wiring = grad_wiring_problems([ev.ret_term])
+    ctx.check('C15.grad.wiring', A, 'autodiff', not wiring, expected='gradient read from the require_grad leaf the density was evaluated on, no graph cut in between', found='; '.join(wiring) or 'wired', sp=b['sp'],
+              why='the gradient handed to HMC/NUTS must be the true gradient of the returned log-density')
     calls = ev.events(lambda e: e.key == D + 'GradientTarget::unnorm_logp')
     ctx.check('C15.grad.once', A, 'evaluations', len(calls) == 1, expected='density evaluated once', found=str(len(calls)), sp=b['sp'],
               why='value and gradient must come from the same evaluation')
